@@ -18,7 +18,32 @@ PROP = "C30"
 
 def _task(t):
     seed, nsched = t
+    if isinstance(seed, dict):        # a corpus entry: one scenario with one scripted schedule
+        v, out = tcheck.replay_one(seed["scenario"], seed["switches"])
+        return {"seed": 0, "nthreads": len(seed["scenario"]["threads"]), "runs": 1, "steps": sum(out.get("steps", {}).values()),
+                "fired": out.get("fired", 0), "deadlocks": 0, "conflicts": 0, "distinct": [], "sample": None,
+                "violations": ([{"class": v[0][0], "text": v[0][1], "scenario": seed["scenario"], "switches": seed["switches"]}]
+                               if v and v[0][0] != "deadlock" else [])}
     return tcheck.explore_scenario(seed, nsched)
+
+
+def _corpus():
+    import os
+    d = os.path.join(common.VERIF, "corpus", PROP)
+    out = []
+    try:
+        names = sorted(os.listdir(d))
+    except OSError:
+        return out
+    for n in names:
+        if n.endswith(".json"):
+            try:
+                with open(os.path.join(d, n)) as f:
+                    rp = json.load(f)
+                out.append({"scenario": rp["scenario"], "switches": rp["switches"]})
+            except (OSError, ValueError, KeyError):
+                pass
+    return out
 
 
 def _min_task(t):
@@ -53,6 +78,8 @@ def main(tier):
     pending = []
 
     def tasks():
+        for c in _corpus():
+            yield (c, nsched)
         i = 0
         while True:
             yield (common.run_seed(seed, i, PROP), nsched)
